@@ -146,6 +146,9 @@ impl<T: Socket + ?Sized> Worker<T> {
     }
 
     fn send_file(self, file: File, check_response: bool) -> Result<(), Box<dyn Error>> {
+        #[cfg(rs_tftpd_verif)]
+        use crate::verif::Instant;
+
         let mut block_number = 1;
         let mut window = Window::new(self.windowsize, self.blk_size, file);
 
